@@ -490,16 +490,31 @@ class Registry(object):
         self.inline_ok = set()     # quals that may be inlined regardless of size
         self.no_inline = set()
         self.tasks = {}            # key -> Contract / Lemma / Scan (anything with .prop and .verify)
+        self.origin = {}           # key -> contracts.* module that registered the task (the one a worker has to import)
         self.notes = {}            # prop -> {'trusted': [], 'assumptions': [], 'not_built': []}
         self.xchecks = []          # concrete differential checks: dict(prop, module, name, function)
 
     def add(self, c):
         self.contracts.setdefault(c.qual, []).append(c)
         self.tasks['%s#%s' % (c.qual, c.name)] = c
+        self.origin['%s#%s' % (c.qual, c.name)] = self._origin()
         return c
+
+    @staticmethod
+    def _origin():
+        """the contracts.* module whose top-level code is registering right now (innermost such frame)"""
+        import sys
+        f = sys._getframe(2)
+        while f is not None:
+            n = f.f_globals.get('__name__', '')
+            if n.startswith('contracts.'):
+                return n
+            f = f.f_back
+        return None
 
     def add_task(self, t):
         self.tasks[t.key] = t
+        self.origin[t.key] = self._origin()
         return t
 
     def task_keys(self):
